@@ -25,9 +25,11 @@ THEOREMS = ["GmqttVerif.Limiter.poll_ids_nonzero_distinct_unmarked",
             "GmqttVerif.Broker.replay_on_resume",
             "GmqttVerif.Broker.first_send_dup0",
             "GmqttVerif.Broker.first_send_dup0_reachable",
-            "GmqttVerif.Broker.reachable_msgs_inv"]
-EXTRA_MODULES = ['GmqttVerif.Properties.C03Broker']
-COMPS = ["limiter", "broker"]
+            "GmqttVerif.Broker.reachable_msgs_inv",
+            # the retransmission clause rests on the session queue keeping every handed-out entry until it is removed
+            "GmqttVerif.Queue.replay_after_init", "GmqttVerif.Queue.exactly_one_place"]
+EXTRA_MODULES = ['GmqttVerif.Properties.C03Broker', 'GmqttVerif.Properties.C10']
+COMPS = ["limiter", "broker", "queue"]
 MAXID = 65535
 
 
@@ -325,6 +327,42 @@ def nontrivial(ops, out):
     return False
 
 
+def gen_resume(rng):
+    """queue store seen from C03: entries handed out (Read) and not yet removed must all come back, in order, from
+    ReadInflight after a resuming Init - whatever is added to the (often full) queue between Init and ReadInflight,
+    the window in which the broker's delivery path and the new connection's poll goroutine race."""
+    from . import c10
+    mx = rng.choice([1, 2, 3, 3, 4])
+    ops = [f"new {mx} 0", f"init 1 {c10.BIG}", "readinflight 10"]
+    tag = pid = 0
+    for _round in range(rng.randint(1, 4)):
+        for _ in range(rng.randint(1, mx + 1)):
+            tag += 1; ops.append(f"add {tag} {rng.choice([1, 1, 2])} none 20")
+        k = rng.randint(1, mx)
+        ids = list(range(pid + 1, pid + 1 + k)); pid += k
+        ops.append("read " + ",".join(map(str, ids)))
+        for i in ids:
+            r = rng.random()
+            if r < 0.25: ops.append(f"remove {i}")
+            elif r < 0.45: ops.append(f"replace {i}")
+        for _ in range(rng.randint(0, 2)):          # queued while offline
+            tag += 1; ops.append(f"add {tag} {rng.choice([0, 1, 2])} none 20")
+        ops.append(f"init 0 {c10.BIG}")
+        for _ in range(rng.randint(0, mx + 1)):      # routed to the client before the replay has started
+            tag += 1; ops.append(f"add {tag} {rng.choice([1, 1, 2, 0])} none 20")
+        ops.append(f"readinflight {rng.choice([1, 2, 10])}")
+        if rng.random() < 0.5:
+            tag += 1; ops.append(f"add {tag} 1 none 20")
+        ops += ["readinflight 10", "readinflight 10"]
+    ops += [f"init 0 {c10.BIG}", "readinflight 1000", "readinflight 1000",
+            "read " + ",".join(str(i) for i in range(pid + 1, pid + 41))]
+    return ops
+
+def _queue_stream(tier):
+    from . import c10
+    return (core.Stream("queue-resume", "queue", gen_resume, c10.predicate, c10.nontrivial, keep_prefix=2),
+            3000 if tier == "quick" else 100000)
+
 def streams(tier):
     n = 7000 if tier == "quick" else 300000
     nlong = 4 if tier == "quick" else 16
@@ -332,6 +370,7 @@ def streams(tier):
     return [(core.Stream("limiter", "limiter", gen, predicate, nontrivial, keep_prefix=1, corpus=corpus, timeout=600), n),
             # own process: the wedged poll keeps spinning in the driver until it exits
             (core.Stream("limiter-wedge", "limiter", lambda rng: SPIN_CASE, predicate, None, keep_prefix=1, timeout=120), 1),
+            _queue_stream(tier),
             _wire(tier)]
 
 def _wire(tier):
